@@ -93,6 +93,28 @@ def equal_values_in_sequence(ctx):
                     break
 
 
+def long_keys(ctx):
+    """very long ids: lengths around 2^16 and 2^20 characters (and bytes), pairs that differ only in their LAST character — every
+    character of the key reaches the hash"""
+    from pyab_experiment.experiment_evaluator import ExperimentEvaluator
+    ev = ExperimentEvaluator('def e { splitters: u return "a" weighted 1, "b" weighted 1, "c" weighted 1, "d" weighted 1, "e" weighted 1, "f" weighted 1, "g" weighted 1, "h" weighted 1 }')
+    ws = ["1"] * 8
+    for base in (2 ** 16, 2 ** 20):
+        for d in (-1, 0, 1, 2):
+            for body in ("k", "é"):
+                for last in ("Y", "Z"):
+                    u = body * (base + d - 1) + last
+                    got = common.outcome_of(lambda: ev(u=u))
+                    h = gen.published_position(None, ["u"], {"u": u})
+                    want = {"g": {"s": "abcdefgh"[gen.spec_indices(ws, h)[0]]}}
+                    ctx.case(("long-key", base + d, body, last), True)
+                    ctx.count("long-keys")
+                    if got != want:
+                        ctx.violation(f"id of {base + d} characters ({body!r} repeated, ending in {last!r}) gets {json.dumps(got)}; md5 of the whole key selects {json.dumps(want)}",
+                                      {"length": base + d, "body": body, "last": last, "impl": got, "spec": want})
+                        return
+
+
 def proba_range(ctx):
     """deterministic_proba(str) is in [0,1) and is the first 32 bits of MD5 / 2^32 — also at the top of the range"""
     import hashlib
@@ -133,6 +155,7 @@ def run(ctx):
     progcases.run_cases(ctx, make_cases(ctx, n), want_stages=False)
     same_print_pairs(ctx, 50)
     equal_values_in_sequence(ctx)
+    long_keys(ctx)
     proba_range(ctx)
     known_family(ctx)
 
